@@ -12,7 +12,7 @@
      InlineTable::set_dotted, Array::set_trailing*, Decor setters and the *_formatted inserts
      are not construction and are left out: every table is `Table::new()` + inserts. *)
 From TV Require Import Base.Prelude Base.Utf8 Base.Winnow Gen.Consts.
-From TV Require Import Model.Datetime Model.Numbers Model.Tree Model.Write.
+From TV Require Import Model.Datetime Model.Numbers Model.Tree Model.Parse Model.Write.
 
 (* ---- key.rs ------------------------------------------------------------------------------- *)
 (* Key::new(key) / From<&str> for Key *)
@@ -216,31 +216,43 @@ with abs_tbl (t : tbl) : list (bytes * anode) :=
 
 (* what a document can express: in every table the key/value lines come before the sub-table
    headers, so the printed form lists the values of a table first (in their order) and then its
-   sub-tables and arrays of tables (in their order); `norm` is that stable partition, applied at
-   every level *)
-Definition is_aval (n : anode) : bool := match n with AVal _ => true | _ => false end.
-Fixpoint norm_node (n : anode) : anode :=
+   sub-tables and arrays of tables (in their order); an empty array of tables has no text form
+   (no `[[k]]` header is printed for it) and disappears.  `printed_entries` is that normal form,
+   applied at every level. *)
+Definition val_entries (l : list (bytes * anode)) : list (bytes * anode) :=
+  flat_map (fun kv => match snd kv with AVal v => [(fst kv, AVal v)] | _ => [] end) l.
+Fixpoint printed_node (n : anode) : list anode :=
   match n with
-  | AVal v => AVal v
-  | ATbl l =>
-    let l' := map (fun kv => (fst kv, norm_node (snd kv))) l in
-    ATbl (filter (fun kv => is_aval (snd kv)) l' ++ filter (fun kv => negb (is_aval (snd kv))) l')
-  | AAot ls =>
-    AAot (map (fun l =>
-                 let l' := map (fun kv => (fst kv, norm_node (snd kv))) l in
-                 filter (fun kv => is_aval (snd kv)) l' ++ filter (fun kv => negb (is_aval (snd kv))) l') ls)
-  end.
-Definition norm_tbl (l : list (bytes * anode)) : list (bytes * anode) :=
-  match norm_node (ATbl l) with ATbl l' => l' | _ => [] end.
-
-(* an empty array of tables has no text form (no `[[k]]` header is printed for it): the entry
-   disappears from the printed document *)
-Fixpoint drop_empty_aot (n : anode) : list anode :=
-  match n with
-  | AVal v => [AVal v]
-  | ATbl l => [ATbl (flat_map (fun kv => map (fun n' => (fst kv, n')) (drop_empty_aot (snd kv))) l)]
+  | AVal _ => []                       (* values are listed by val_entries *)
+  | ATbl l => [ATbl (val_entries l ++ flat_map (fun kv => map (fun r => (fst kv, r)) (printed_node (snd kv))) l)]
   | AAot [] => []
-  | AAot ls => [AAot (map (fun l => flat_map (fun kv => map (fun n' => (fst kv, n')) (drop_empty_aot (snd kv))) l) ls)]
+  | AAot ls => [AAot (map (fun l => val_entries l ++ flat_map (fun kv => map (fun r => (fst kv, r)) (printed_node (snd kv))) l) ls)]
+  end.
+Definition printed_entries (l : list (bytes * anode)) : list (bytes * anode) :=
+  val_entries l ++ flat_map (fun kv => map (fun r => (fst kv, r)) (printed_node (snd kv))) l.
+
+(* nesting: the longest header path below a table, the deepest value anywhere in it (the parser's
+   recursion limit bounds both: key paths of 80 segments and values nested 80 deep are refused) *)
+Fixpoint item_hdepth (it : item) : nat :=
+  match it with
+  | ITable t => S (tbl_hdepth t)
+  | IAot ts _ => S (fold_right (fun t acc => Nat.max (tbl_hdepth t) acc) 0 ts)
+  | _ => 0
+  end
+with tbl_hdepth (t : tbl) : nat :=
+  match t with
+  | Tbl items _ _ _ _ _ => fold_right (fun kv acc => match kv with (_, i0) => Nat.max (item_hdepth i0) acc end) 0 items
+  end.
+Fixpoint item_vdepth (it : item) : nat :=
+  match it with
+  | INone => 0
+  | IValue v => value_depth v
+  | ITable t => tbl_vdepth t
+  | IAot ts _ => fold_right (fun t acc => Nat.max (tbl_vdepth t) acc) 0 ts
+  end
+with tbl_vdepth (t : tbl) : nat :=
+  match t with
+  | Tbl items _ _ _ _ _ => fold_right (fun kv acc => match kv with (_, i0) => Nat.max (item_vdepth i0) acc end) 0 items
   end.
 
 (* ---- floats without a stored repr -------------------------------------------------------------
